@@ -378,6 +378,44 @@ def type_attrs_copied(tree):
     return copied
 
 
+def column_args_copied(tree):
+    """_s_customize gives the new Attributes class a DEEP COPY of the inherited sqla_column_args (the
+    column keywords pk / autoincrement / onupdate / server_default are written into its dictionary)"""
+    mb = find(tree.body, ast.ClassDef, 'ModelBase', '_base.py')
+    fn = find(mb.body, ast.FunctionDef, '_s_customize', 'ModelBase')
+    hits = [n for n in ast.walk(fn) if isinstance(n, ast.Assign) and len(n.targets) == 1
+            and is_attr(n.targets[0], 'Attributes', 'sqla_column_args')]
+    if not hits:
+        raise TranslateError('_s_customize: no assignment to Attributes.sqla_column_args')
+    inherited, copied = 0, True
+    for n in hits:
+        v = n.value
+        refs_cls = any(is_attr(x, 'cls', 'Attributes', 'sqla_column_args') for x in ast.walk(v))
+        names = [x.id for x in ast.walk(v) if isinstance(x, ast.Name)]
+        if isinstance(v, ast.Call) and isinstance(v.func, ast.Name) and v.func.id == 'deepcopy' and len(v.args) == 1 \
+                and is_attr(v.args[0], 'cls', 'Attributes', 'sqla_column_args'):
+            inherited += 1
+        elif refs_cls:
+            inherited += 1
+            copied = False                      # the inherited pair (or its dictionary) is used as it is
+        elif isinstance(v, ast.Tuple) and len(v.elts) == 2 and isinstance(v.elts[1], ast.Dict) and not v.elts[1].keys:
+            pass                                # a fresh (), {}
+        elif isinstance(v, ast.Name) and v.id == 'new_v' or (isinstance(v, ast.Tuple) and 'd' in names and 't' in names):
+            pass                                # the 'fk' branch: re-tuples the class's OWN pair
+        else:
+            # anything built from local names may alias the inherited dictionary: look where they come from
+            for m in ast.walk(fn):
+                if isinstance(m, ast.Assign) and any(is_attr(x, 'cls', 'Attributes', 'sqla_column_args') for x in ast.walk(m.value)) \
+                        and not (isinstance(m.value, ast.Call) and isinstance(m.value.func, ast.Name) and m.value.func.id == 'deepcopy'):
+                    tn = [x.id for t in m.targets for x in ast.walk(t) if isinstance(x, ast.Name)]
+                    if set(tn) & set(names):
+                        inherited += 1
+                        copied = False
+    if inherited == 0:
+        raise TranslateError('_s_customize: the inherited sqla_column_args is not handed to the new class at all')
+    return copied
+
+
 # ----------------------------------------------------------------------------------------------- binary.py
 def bytearray_new(tree):
     """ByteArray.__new__ touches the encoding only when the keyword is given"""
@@ -560,6 +598,8 @@ def generate(repo):
     per_class, checked = sortcache_key(pb)
     t.append('(* _s_customize merges the keywords into a copy of the type_attrs of the protocol *)')
     t.append('Definition type_attrs_copied : bool := %s.' % gbool(type_attrs_copied(mb)))
+    t.append('(* _s_customize deep-copies the inherited sqla_column_args *)')
+    t.append('Definition column_args_copied : bool := %s.' % gbool(column_args_copied(mb)))
     t.append('(* ByteArray.__new__ rewrites kwargs["encoding"] only under "if \'encoding\' in kwargs" *)')
     t.append('Definition bytearray_encoding_only_when_given : bool := %s.' % gbool(bytearray_new(bn)))
     t.append('(* ProtocolMixin.sort_fields: one cache entry per class, checked against the flat type info it came from *)')
